@@ -12,6 +12,14 @@ def _decode(case):
 
 
 def eval_case(case):
+    if "parse_src" in case:
+        import hc
+        from common import build_harness
+        build_harness()
+        r = hc.run_requests([{"op": "ast", "src": case["parse_src"]}], nproc=1)[0]
+        if r.get("ok"):
+            return Verdict("held")
+        return Verdict("violated", "documented slice spelling does not parse: %s" % r.get("msg"))
     return kern.eval_one("C05", _decode(case), case.get("profile", "release"))
 
 
